@@ -4,12 +4,35 @@ mod hash_union;
 mod models;
 mod panic;
 
-use syn::{Data, DeriveInput, Meta};
+use quote::format_ident;
+use syn::{Data, DeriveInput, GenericParam, Generics, Ident, Meta};
 
 use super::TraitHandler;
 use crate::Trait;
 
 pub(crate) struct HashHandler;
+
+/// The name of the `Hasher` type parameter of the generated `hash` method: `H`, or the first of `H_`, `H__`, ... that is not a generic parameter of the type itself.
+fn hasher_ident(generics: &Generics) -> Ident {
+    let mut name = String::from("H");
+
+    // at most one step per generic parameter: that many names cannot all be taken
+    for _ in 0..generics.params.len() {
+        let taken = generics.params.iter().any(|param| match param {
+            GenericParam::Type(ty) => ty.ident.to_string().trim_start_matches("r#") == name,
+            GenericParam::Const(constant) => constant.ident.to_string().trim_start_matches("r#") == name,
+            GenericParam::Lifetime(_) => false,
+        });
+
+        if !taken {
+            break;
+        }
+
+        name.push('_');
+    }
+
+    format_ident!("{}", name)
+}
 
 impl TraitHandler for HashHandler {
     #[inline]
